@@ -1,16 +1,644 @@
-//! C08 (component level) — not built yet.
+//! C08 (component level): packet-number truncation / expansion against a literal
+//! transcription of RFC 9000 §17.1 + Appendix A.2 / A.3, and the `ack::Ranges` →
+//! `frame::Ack` encoding against an own ACK-frame parser.
+//!
+//! Everything the oracle computes is done in `i128`/`u128` in this module; the only
+//! s2n-quic functions used on the oracle side are constructors (`VarInt::new`,
+//! `PacketNumberSpace::new_packet_number`).
 
-use vcore::{Property, SubCheck};
+use proptest::prelude::*;
+use s2n_codec::{DecoderBuffer, Encoder, EncoderBuffer, EncoderValue};
+use s2n_quic_core::{
+    ack,
+    frame::{self, ack::EcnCounts},
+    packet::number::{PacketNumber, PacketNumberSpace, TruncatedPacketNumber},
+    varint::VarInt,
+};
+use serde::{Deserialize, Serialize};
+use std::collections::BTreeSet;
+use vcore::{ensure_that, fail, gen::pick_index, CaseResult, Obs, PropCheck, Property, SubCheck, Tier};
+
+const MAX: u64 = (1 << 62) - 1;
+/// distances at which the smallest admissible encoding grows by one byte
+/// (`2^(8·len) ≥ 2·d + 1`  ⇔  `d ≤ 2^(8·len−1) − 1`)
+const LEN_BOUNDARIES: [u64; 4] = [1 << 7, 1 << 15, 1 << 23, 1 << 31];
+
+fn space_of(s: u8) -> PacketNumberSpace {
+    match s % 3 {
+        0 => PacketNumberSpace::Initial,
+        1 => PacketNumberSpace::Handshake,
+        _ => PacketNumberSpace::ApplicationData,
+    }
+}
+
+fn pn_of(space: PacketNumberSpace, v: u64) -> PacketNumber {
+    space.new_packet_number(VarInt::new(v).expect("harness: pn within varint range"))
+}
+
+// ---------------------------------------------------------------------------------------
+// RFC 9000 transcriptions
+
+/// RFC 9000 Appendix A.3, literally, in i128 (so that neither `expected_pn - pn_hwin` nor
+/// `candidate_pn + pn_win` can wrap). `largest_pn == -1` stands for "nothing received yet".
+fn a3_decode(largest_pn: i128, truncated_pn: u64, pn_nbits: u32) -> i128 {
+    let expected_pn = largest_pn + 1;
+    let pn_win: i128 = 1 << pn_nbits;
+    let pn_hwin = pn_win / 2;
+    let pn_mask = pn_win - 1;
+    let candidate_pn = (expected_pn & !pn_mask) | truncated_pn as i128;
+    if candidate_pn <= expected_pn - pn_hwin && candidate_pn < (1i128 << 62) - pn_win {
+        return candidate_pn + pn_win;
+    }
+    if candidate_pn > expected_pn + pn_hwin && candidate_pn >= pn_win {
+        return candidate_pn - pn_win;
+    }
+    candidate_pn
+}
+
+/// Is `len` bytes an admissible encoding of `pn` given the largest acknowledged `a`?
+///
+/// * `a = Some(la)`: RFC 9000 §17.1 "MUST use a packet number size able to represent more
+///   than twice as large a range as the difference between the largest acknowledged packet
+///   number and the packet number being sent": `2^(8·len) > 2·(pn − la)`, i.e.
+///   `2^(8·len) ≥ 2·(pn − la) + 1`.
+/// * `a = None`: §17.1 does not define the difference; Appendix A.2 does
+///   (`num_unacked = full_pn + 1`, `min_bits = log2(num_unacked) + 1`), i.e.
+///   `2^(8·len) ≥ 2·(pn + 1)`.
+fn a2_admissible(pn: u64, la: Option<u64>, len: u32) -> bool {
+    let win: u128 = 1u128 << (8 * len);
+    match la {
+        Some(la) => win >= 2 * (pn as u128 - la as u128) + 1,
+        None => win >= 2 * (pn as u128 + 1),
+    }
+}
+
+// ---------------------------------------------------------------------------------------
+// helpers around the s2n API
+
+/// (tag bits, wire bytes, big-endian value) of a truncated packet number
+fn wire_of(t: TruncatedPacketNumber) -> (u8, Vec<u8>, u64) {
+    let mut buf = [0u8; 8];
+    let mut enc = EncoderBuffer::new(&mut buf);
+    t.encode(&mut enc);
+    let n = enc.len();
+    let bytes = buf[..n].to_vec();
+    let value = bytes.iter().fold(0u64, |acc, b| (acc << 8) | *b as u64);
+    (t.len().into_packet_tag_mask(), bytes, value)
+}
+
+/// builds a `TruncatedPacketNumber` the way a receiver does: first-byte tag bits + bytes
+fn truncated_from_wire(space: PacketNumberSpace, first_byte: u8, bytes: &[u8]) -> Result<TruncatedPacketNumber, String> {
+    let len = space.new_packet_number_len(first_byte);
+    match len.decode_truncated_packet_number(DecoderBuffer::new(bytes)) {
+        Ok((t, rest)) => {
+            if rest.len() + len.bytesize() != bytes.len() {
+                return Err(format!("decoder consumed {} bytes for a {}-byte packet number", bytes.len() - rest.len(), len.bytesize()));
+            }
+            Ok(t)
+        }
+        Err(e) => Err(format!("decode error {e}")),
+    }
+}
+
+// ---------------------------------------------------------------------------------------
+// sub-check 1: sender side (truncate) + round trips
+
+#[derive(Clone, Debug, Hash, PartialEq, Eq, Serialize, Deserialize)]
+pub struct TruncCase {
+    pub pn: u64,
+    /// largest acknowledged by the peer, `None` = nothing acknowledged yet
+    pub largest_acked: Option<u64>,
+    pub space: u8,
+    /// selects one more receiver state `largest ∈ [largest_acked, pn)`
+    pub recv_choice: u16,
+    /// upper six bits of the first packet byte (must not influence the length decoding)
+    pub tag_noise: u8,
+}
+
+fn near_boundary(d: u128) -> bool {
+    LEN_BOUNDARIES.iter().any(|b| (d as i128 - *b as i128).abs() <= 2)
+}
+
+fn trunc_oracle(c: &TruncCase, obs: &mut Obs) -> CaseResult {
+    let space = space_of(c.space);
+    let pn = c.pn.min(MAX);
+    let la = c.largest_acked.map(|v| v.min(MAX));
+    let s2n_pn = pn_of(space, pn);
+    // With nothing acknowledged s2n's sender uses packet number 0 as the basis
+    // (`TxPacketNumbers::new`: `largest_sent_acked = initial_packet_number`).
+    let basis = pn_of(space, la.unwrap_or(0));
+
+    if let Some(la) = la {
+        if pn < la {
+            // not a state a sender can be in (it never got an ACK for a packet it has not sent
+            // yet); only absence of a panic is required
+            obs.class("pn-below-largest-acked");
+            let _ = s2n_pn.truncate(basis);
+            return Ok(());
+        }
+    }
+
+    // distance as RFC A.2 defines it (num_unacked)
+    let d: u128 = match la {
+        Some(la) => (pn - la) as u128,
+        None => pn as u128 + 1,
+    };
+    let representable = (1..=4).any(|len| a2_admissible(pn, la, len));
+    let got = s2n_pn.truncate(basis);
+
+    obs.nontrivial(near_boundary(d));
+    obs.class_if(la.is_none(), "largest-acked-none");
+    obs.class_if(pn >= MAX - 2, "pn-at-2^62-1");
+    obs.class_if(pn <= 2, "pn-at-0");
+    obs.class_if(!representable, "not-representable");
+    for (i, b) in LEN_BOUNDARIES.iter().enumerate() {
+        if (d as i128 - *b as i128).abs() <= 2 {
+            obs.class(["dist-2^7±2", "dist-2^15±2", "dist-2^23±2", "dist-2^31±2"][i]);
+        }
+    }
+
+    let t = match got {
+        None => {
+            ensure_that!(!representable, "pn:truncate-refused", "pn {pn} largest_acked {la:?}: truncate returned None although the distance {d} is representable in <= 4 bytes");
+            return Ok(());
+        }
+        Some(t) => t,
+    };
+    ensure_that!(representable, "pn:truncate-unrepresentable", "pn {pn} largest_acked {la:?}: truncate returned {t:?} although no encoding of <= 4 bytes can represent twice the distance {d}");
+
+    let (tag, bytes, value) = wire_of(t);
+    let len = t.len().bytesize() as u32;
+    obs.class(["", "len-1", "len-2", "len-3", "len-4"][len as usize]);
+    ensure_that!((1..=4).contains(&len), "pn:len-range", "pn {pn}: length {len}");
+    ensure_that!(t.space() == space, "pn:space", "pn {pn}: truncated number is in space {:?}, expected {space:?}", t.space());
+
+    // A.2 / §17.1: large enough
+    ensure_that!(
+        a2_admissible(pn, la, len),
+        "pn:len-too-short",
+        "pn {pn} largest_acked {la:?}: chosen length {len} bytes cannot represent more than twice the distance {d} (2^{} < {})",
+        8 * len,
+        match la { Some(_) => 2 * d + 1, None => 2 * d }
+    );
+    // A.2: the least significant bytes of the full packet number
+    let mask = (1u64 << (8 * len)) - 1;
+    ensure_that!(value == pn & mask, "pn:truncated-value", "pn {pn}: truncated value {value:#x} is not the low {len} bytes {:#x}", pn & mask);
+
+    // wire: length, tag bits, and decode of the bytes with arbitrary upper tag bits
+    ensure_that!(bytes.len() as u32 == len, "pn:wire-len", "pn {pn}: {} bytes on the wire for length {len}", bytes.len());
+    ensure_that!(tag as u32 == len - 1, "pn:tag-bits", "pn {pn}: tag bits {tag:#04b} for length {len} (RFC 9000 §17.2: one less than the length in bytes)");
+    let first_byte = (c.tag_noise << 2) | tag;
+    let mut wire = bytes.clone();
+    wire.extend_from_slice(&[0xa5, 0x5a]); // payload after the packet number must be left alone
+    match truncated_from_wire(space, first_byte, &wire) {
+        Ok(back) => {
+            ensure_that!(back == t, "pn:wire-roundtrip", "pn {pn}: wire bytes {bytes:02x?} with first byte {first_byte:#010b} decode to {back:?}, sent {t:?}");
+        }
+        Err(e) => fail!("pn:wire-roundtrip", "pn {pn}: wire bytes {bytes:02x?} do not decode: {e}"),
+    }
+
+    // A.3 at the receiver: any largest in [a, pn) must give pn back
+    let a: i128 = la.map(|v| v as i128).unwrap_or(-1);
+    let span = pn as i128 - a; // number of admissible receiver states
+    if span > 0 {
+        let mut states: Vec<i128> = vec![a, pn as i128 - 1, a + span / 2, a + std::cmp::min(1, span - 1)];
+        states.push(a + ((c.recv_choice as i128 * span) >> 16));
+        // the receiver states around every half-window distance from pn
+        for b in LEN_BOUNDARIES {
+            for k in [-1i128, 0, 1] {
+                let l = pn as i128 - b as i128 + k;
+                if l >= a && l < pn as i128 {
+                    states.push(l);
+                }
+            }
+        }
+        for largest in states {
+            let rfc = a3_decode(largest, value, 8 * len);
+            ensure_that!(
+                rfc == pn as i128,
+                "pn:a3-mismatch",
+                "pn {pn} largest_acked {la:?} sent as {len} bytes {value:#x}: a receiver whose largest is {largest} reconstructs {rfc} by RFC 9000 A.3"
+            );
+            if largest >= 0 {
+                let s2n = t.expand(pn_of(space, largest as u64));
+                ensure_that!(
+                    s2n.as_u64() == pn && s2n.space() == space,
+                    "pn:expand-mismatch",
+                    "pn {pn} largest_acked {la:?} sent as {len} bytes {value:#x}: s2n expand with largest {largest} gives {s2n:?}"
+                );
+            }
+        }
+    }
+    Ok(())
+}
+
+fn dist_strategy() -> impl Strategy<Value = u64> {
+    prop_oneof![
+        // around the length boundaries
+        5 => (0usize..4, 0u64..=4).prop_map(|(i, k)| LEN_BOUNDARIES[i] + k - 2),
+        // around twice / half the boundaries (where a wrong factor would put them)
+        2 => (0usize..4, 0u64..=4, any::<bool>()).prop_map(|(i, k, dbl)| if dbl { LEN_BOUNDARIES[i] * 2 + k - 2 } else { LEN_BOUNDARIES[i] / 2 + k - 2 }),
+        2 => 0u64..300,
+        2 => 0u64..(1 << 17),
+        2 => 0u64..(1 << 33),
+        1 => 0u64..=MAX,
+    ]
+}
+
+fn anchor_strategy() -> impl Strategy<Value = u64> {
+    prop_oneof![
+        3 => 0u64..=MAX,
+        2 => 0u64..8,
+        2 => (0u64..8).prop_map(|k| MAX - k),
+        1 => (0u32..62, 0u64..=4).prop_map(|(b, k)| ((1u64 << b) + k).saturating_sub(2).min(MAX)),
+        1 => 0u64..(1 << 34),
+        1 => (0u64..(1 << 34)).prop_map(|k| MAX - k),
+    ]
+}
+
+fn trunc_strategy(_t: Tier) -> impl Strategy<Value = TruncCase> {
+    let pair = prop_oneof![
+        // largest_acked anchored, pn above it
+        5 => (anchor_strategy(), dist_strategy()).prop_map(|(la, d)| (la.saturating_add(d).min(MAX), Some(la))),
+        // pn anchored, largest_acked below it
+        5 => (anchor_strategy(), dist_strategy()).prop_map(|(pn, d)| (pn, Some(pn.saturating_sub(d)))),
+        // nothing acknowledged yet: distance is pn + 1
+        3 => dist_strategy().prop_map(|d| (d.saturating_sub(1).min(MAX), None)),
+        // both uniform (mostly not representable, or pn below largest_acked)
+        1 => (0u64..=MAX, 0u64..=MAX).prop_map(|(pn, la)| (pn, Some(la))),
+    ];
+    (pair, 0u8..3, any::<u16>(), 0u8..64).prop_map(|((pn, largest_acked), space, recv_choice, tag_noise)| TruncCase {
+        pn,
+        largest_acked,
+        space,
+        recv_choice,
+        tag_noise,
+    })
+}
+
+// ---------------------------------------------------------------------------------------
+// sub-check 2: receiver side (expand) differential against A.3 on arbitrary inputs
+
+#[derive(Clone, Debug, Hash, PartialEq, Eq, Serialize, Deserialize)]
+pub struct ExpandCase {
+    pub largest: u64,
+    /// encoded length in bytes, 1..=4
+    pub len: u8,
+    pub value: Val,
+    pub space: u8,
+}
+
+#[derive(Clone, Copy, Debug, Hash, PartialEq, Eq, Serialize, Deserialize)]
+pub enum Val {
+    Abs(u32),
+    /// low bytes of `largest + 1 + delta`
+    NearExpected(i64),
+    /// low bytes of `largest + 1 ± half window + delta`
+    HalfWindow { up: bool, delta: i8 },
+}
+
+fn expand_oracle(c: &ExpandCase, obs: &mut Obs) -> CaseResult {
+    let space = space_of(c.space);
+    let len = (c.len.clamp(1, 4)) as u32;
+    let largest = c.largest.min(MAX);
+    let win: i128 = 1 << (8 * len);
+    let expected = largest as i128 + 1;
+    let target: i128 = match c.value {
+        Val::Abs(v) => v as i128,
+        Val::NearExpected(d) => expected + d as i128,
+        Val::HalfWindow { up, delta } => expected + if up { win / 2 } else { -(win / 2) } + delta as i128,
+    };
+    let value = target.rem_euclid(win) as u64;
+    let bytes: Vec<u8> = (0..len).rev().map(|i| (value >> (8 * i)) as u8).collect();
+    let t = match truncated_from_wire(space, (len - 1) as u8, &bytes) {
+        Ok(t) => t,
+        Err(e) => fail!("pn:wire-decode", "{len}-byte packet number {bytes:02x?} does not decode: {e}"),
+    };
+    let (tag, back, v2) = wire_of(t);
+    ensure_that!(back == bytes && v2 == value && tag as u32 == len - 1, "pn:wire-roundtrip", "bytes {bytes:02x?} decode to {t:?} which re-encodes as {back:02x?} tag {tag}");
+
+    let rfc = a3_decode(largest as i128, value, 8 * len);
+    let got = t.expand(pn_of(space, largest));
+
+    // distance of the *candidate* from the expected pn, relative to the half window
+    let candidate = (expected & !(win - 1)) | value as i128;
+    let dist = (candidate - expected).abs();
+    let at_edge = (dist - win / 2).abs() <= 2;
+    let corner = largest >= MAX - (win as u64) || (largest as i128) < win;
+    obs.nontrivial(at_edge);
+    obs.class_if(at_edge, "half-window-edge±2");
+    obs.class_if(dist == win / 2, "exactly-half-window");
+    obs.class_if(corner && largest >= MAX - (win as u64), "near-2^62");
+    obs.class_if(corner && (largest as i128) < win, "near-0");
+    obs.class_if(rfc != candidate, "window-adjusted");
+    obs.class(["", "len-1", "len-2", "len-3", "len-4"][len as usize]);
+
+    ensure_that!(got.space() == space, "pn:space", "expand changed the space to {:?}", got.space());
+    if (0..=MAX as i128).contains(&rfc) {
+        ensure_that!(
+            got.as_u64() as i128 == rfc,
+            "pn:expand-vs-a3",
+            "largest {largest}, truncated {value:#x} ({len} bytes): s2n expands to {}, RFC 9000 A.3 gives {rfc}",
+            got.as_u64()
+        );
+    } else {
+        // A.3 itself leaves [0, 2^62) (only possible for largest = 2^62-1 and a candidate at or
+        // above 2^62): no packet number exists for this input; any in-range answer is
+        // acceptable, the packet cannot authenticate.
+        obs.class("a3-out-of-range");
+    }
+    Ok(())
+}
+
+fn expand_strategy(_t: Tier) -> impl Strategy<Value = ExpandCase> {
+    let value = prop_oneof![
+        2 => any::<u32>().prop_map(Val::Abs),
+        2 => (-300i64..300).prop_map(Val::NearExpected),
+        1 => any::<i64>().prop_map(|d| Val::NearExpected(d >> 20)),
+        5 => (any::<bool>(), -3i8..=3).prop_map(|(up, delta)| Val::HalfWindow { up, delta }),
+    ];
+    let largest = prop_oneof![
+        3 => 0u64..=MAX,
+        2 => 0u64..600,
+        2 => (0u64..600).prop_map(|k| MAX - k),
+        // around multiples of the windows and half windows
+        3 => (1u32..=4, 0u64..(1 << 30), any::<bool>(), 0u64..=6).prop_map(|(len, m, half, k)| {
+            let win = 1u64 << (8 * len);
+            let base = (m % ((MAX >> (8 * len)) + 1)) * win + if half { win / 2 } else { 0 };
+            (base + k).saturating_sub(3).min(MAX)
+        }),
+        2 => (1u32..=4, 0u64..=6, any::<bool>()).prop_map(|(len, k, top)| {
+            let win = 1u64 << (8 * len);
+            if top { (MAX - win + k).saturating_sub(3).min(MAX) } else { (win + k).saturating_sub(3) }
+        }),
+        1 => 0u64..(1 << 34),
+        1 => (0u64..(1 << 34)).prop_map(|k| MAX - k),
+    ];
+    (largest, 1u8..=4, value, 0u8..3).prop_map(|(largest, len, value, space)| ExpandCase { largest, len, value, space })
+}
+
+// ---------------------------------------------------------------------------------------
+// sub-check 3: ack::Ranges -> frame::Ack -> own parser
+
+#[derive(Clone, Debug, Hash, PartialEq, Eq, Serialize, Deserialize)]
+pub struct AckCase {
+    pub space: u8,
+    pub limit: u8,
+    pub base: u64,
+    pub ack_delay: u64,
+    pub ecn: Option<(u64, u64, u64)>,
+    pub inserts: Vec<Ins>,
+}
+
+#[derive(Clone, Copy, Debug, Hash, PartialEq, Eq, Serialize, Deserialize)]
+pub enum Ins {
+    /// next in order (largest + 1 + gap)
+    Next { gap: u8 },
+    /// below the largest received so far
+    Behind { back: u16 },
+    /// duplicate of something received (by choice)
+    Dup { choice: u16 },
+    /// just below the smallest range held
+    BelowMin { back: u8 },
+}
+
+/// minimal varint reader (RFC 9000 §16)
+fn read_varint(b: &[u8], pos: &mut usize) -> Result<u64, String> {
+    let first = *b.get(*pos).ok_or("truncated frame")?;
+    let n = 1usize << (first >> 6);
+    if *pos + n > b.len() {
+        return Err("truncated varint".into());
+    }
+    let mut v = (first & 0x3f) as u64;
+    for i in 1..n {
+        v = (v << 8) | b[*pos + i] as u64;
+    }
+    *pos += n;
+    Ok(v)
+}
+
+struct ParsedAck {
+    delay: u64,
+    /// inclusive (smallest, largest), descending
+    ranges: Vec<(u64, u64)>,
+    ecn: Option<(u64, u64, u64)>,
+    consumed: usize,
+}
+
+/// RFC 9000 §19.3 / §19.3.1 transcription
+fn parse_ack(b: &[u8]) -> Result<ParsedAck, String> {
+    let mut pos = 0;
+    let ty = read_varint(b, &mut pos)?;
+    if ty != 0x02 && ty != 0x03 {
+        return Err(format!("frame type {ty:#x} is not ACK"));
+    }
+    let largest = read_varint(b, &mut pos)? as i128;
+    let delay = read_varint(b, &mut pos)?;
+    let count = read_varint(b, &mut pos)?;
+    let first = read_varint(b, &mut pos)? as i128;
+    let mut smallest = largest - first;
+    if smallest < 0 {
+        return Err(format!("first ACK range {first} exceeds largest acknowledged {largest}"));
+    }
+    let mut ranges = vec![(smallest as u64, largest as u64)];
+    for i in 0..count {
+        let gap = read_varint(b, &mut pos)? as i128;
+        let len = read_varint(b, &mut pos)? as i128;
+        // §19.3.1: largest = previous_smallest - gap - 2; smallest = largest - ack_range
+        let l = smallest - gap - 2;
+        let s = l - len;
+        if s < 0 {
+            return Err(format!("ACK range {i} reaches below packet number 0 (largest {l}, length {len})"));
+        }
+        ranges.push((s as u64, l as u64));
+        smallest = s;
+    }
+    let ecn = if ty == 0x03 {
+        Some((read_varint(b, &mut pos)?, read_varint(b, &mut pos)?, read_varint(b, &mut pos)?))
+    } else {
+        None
+    };
+    Ok(ParsedAck { delay, ranges, ecn, consumed: pos })
+}
+
+fn ack_oracle(c: &AckCase, obs: &mut Obs) -> CaseResult {
+    let space = space_of(c.space);
+    let limit = (c.limit as usize).max(1);
+    let mut ranges = ack::Ranges::new(limit);
+    let mut received: BTreeSet<u64> = BTreeSet::new();
+    let mut order: Vec<u64> = vec![];
+    let base = c.base.min(MAX - (1 << 20));
+    let mut buf = vec![0u8; 64 + 20 * (limit + 2)];
+    let mut max_ranges_seen = 0usize;
+    let mut dropped = false;
+    let mut frames = 0u64;
+
+    for (step, ins) in c.inserts.iter().enumerate() {
+        let largest = received.iter().next_back().copied();
+        let pn = match *ins {
+            Ins::Next { gap } => largest.map(|l| l + 1 + gap as u64).unwrap_or(base),
+            Ins::Behind { back } => largest.map(|l| l.saturating_sub(back as u64)).unwrap_or(base),
+            Ins::Dup { choice } => {
+                if order.is_empty() {
+                    base
+                } else {
+                    order[pick_index(choice, order.len())]
+                }
+            }
+            Ins::BelowMin { back } => match ranges.min_value() {
+                Some(m) => m.as_u64().saturating_sub(1 + back as u64),
+                None => base,
+            },
+        };
+        let pn = pn.min(MAX);
+        // the receiver records a packet number once its packet was processed
+        received.insert(pn);
+        order.push(pn);
+        if ranges.insert_packet_number(pn_of(space, pn)).is_err() {
+            dropped = true;
+        }
+        if ranges.is_empty() {
+            continue;
+        }
+
+        // the frame exactly as `AckManager::on_transmit` builds it
+        let frame = frame::Ack {
+            ack_delay: VarInt::new(c.ack_delay.min(MAX)).unwrap(),
+            ack_ranges: &ranges,
+            ecn_counts: c.ecn.map(|(a, b, ce)| EcnCounts {
+                ect_0_count: VarInt::new(a.min(MAX)).unwrap(),
+                ect_1_count: VarInt::new(b.min(MAX)).unwrap(),
+                ce_count: VarInt::new(ce.min(MAX)).unwrap(),
+            }),
+        };
+        let n = {
+            let mut enc = EncoderBuffer::new(&mut buf);
+            frame.encode(&mut enc);
+            enc.len()
+        };
+        frames += 1;
+        let parsed = match parse_ack(&buf[..n]) {
+            Ok(p) => p,
+            Err(e) => fail!("ack:frame-malformed", "step {step} (pn {pn}): encoded ACK frame {:02x?} is malformed: {e}", &buf[..n]),
+        };
+        ensure_that!(parsed.consumed == n, "ack:frame-trailing", "step {step}: {} trailing bytes after the ACK frame", n - parsed.consumed);
+        ensure_that!(parsed.delay == c.ack_delay.min(MAX), "ack:delay", "step {step}: ack delay field {} != {}", parsed.delay, c.ack_delay.min(MAX));
+        ensure_that!(parsed.ecn == c.ecn.map(|(a, b, ce)| (a.min(MAX), b.min(MAX), ce.min(MAX))), "ack:ecn", "step {step}: ECN counts {:?} != {:?}", parsed.ecn, c.ecn);
+
+        // 1. every acknowledged pn was received
+        let mut acked: u64 = 0;
+        for (s, l) in &parsed.ranges {
+            ensure_that!(s <= l, "ack:range-order", "step {step}: range {s}..={l}");
+            let span = l - s + 1;
+            ensure_that!(
+                span <= received.len() as u64,
+                "ack:not-received",
+                "step {step}: ACK range {s}..={l} names {span} packets, only {} were ever received",
+                received.len()
+            );
+            for p in *s..=*l {
+                ensure_that!(received.contains(&p), "ack:not-received", "step {step}: ACK frame acknowledges {p} (range {s}..={l}) which was never received; received {:?}", received);
+            }
+            acked += span;
+        }
+        // 2. ranges are descending and separated by at least one unacknowledged number (wire format)
+        for w in parsed.ranges.windows(2) {
+            ensure_that!(w[1].1 + 1 < w[0].0, "ack:range-order", "step {step}: ranges {:?} then {:?} are not descending with a gap", w[0], w[1]);
+        }
+        // 3. the frame says exactly what the range set holds (nothing lost in the encoding), in particular
+        //    the largest received pn
+        let held: Vec<(u64, u64)> = ranges.inclusive_ranges().rev().map(|r| (r.start().as_u64(), r.end().as_u64())).collect();
+        ensure_that!(parsed.ranges == held, "ack:frame-vs-ranges", "step {step}: frame ranges {:?}, range set holds {:?}", parsed.ranges, held);
+        let top = *received.iter().next_back().unwrap();
+        ensure_that!(parsed.ranges[0].1 == top, "ack:largest-missing", "step {step}: largest acknowledged {} but the largest received is {top}", parsed.ranges[0].1);
+        ensure_that!(parsed.ranges.len() <= limit, "ack:range-limit", "step {step}: {} ranges with limit {limit}", parsed.ranges.len());
+        // 4. the highest `limit` ranges of the received set are never the ones sacrificed:
+        //    whatever is acknowledged below the top range is a suffix-closed selection
+        if !dropped {
+            ensure_that!(acked == received.len() as u64, "ack:lost-without-limit", "step {step}: {acked} packets acknowledged, {} received, and the range limit was never hit", received.len());
+        }
+        max_ranges_seen = max_ranges_seen.max(parsed.ranges.len());
+    }
+    obs.units = frames;
+    obs.nontrivial(max_ranges_seen >= 3);
+    obs.class_if(dropped, "range-limit-hit");
+    obs.class_if(c.ecn.is_some(), "with-ecn");
+    obs.class_if(max_ranges_seen >= 3, ">=2-gaps");
+    obs.class_if(base >= (1 << 30), "pn>=2^30");
+    Ok(())
+}
+
+fn ack_strategy(_t: Tier) -> impl Strategy<Value = AckCase> {
+    let ins = prop_oneof![
+        6 => prop_oneof![4 => Just(0u8), 3 => 1u8..4, 1 => any::<u8>()].prop_map(|gap| Ins::Next { gap }),
+        3 => prop_oneof![3 => 1u16..6, 2 => 1u16..80, 1 => any::<u16>()].prop_map(|back| Ins::Behind { back }),
+        1 => any::<u16>().prop_map(|choice| Ins::Dup { choice }),
+        1 => (0u8..4).prop_map(|back| Ins::BelowMin { back }),
+    ];
+    (
+        0u8..3,
+        prop_oneof![Just(1u8), Just(2), Just(3), Just(10), 1u8..40],
+        vcore::gen::varint_value(),
+        vcore::gen::varint_value(),
+        prop::option::of((vcore::gen::varint_value(), vcore::gen::varint_value(), vcore::gen::varint_value())),
+        prop::collection::vec(ins, 1..60),
+    )
+        .prop_map(|(space, limit, base, ack_delay, ecn, inserts)| AckCase { space, limit, base, ack_delay, ecn, inserts })
+}
+
+// ---------------------------------------------------------------------------------------
 
 pub fn subs() -> Vec<Box<dyn SubCheck>> {
-    vec![]
+    vec![
+        Box::new(PropCheck::<TruncCase, _> {
+            name: "pn_truncate_expand",
+            cases: |t| t.pick(2_000_000, 60_000_000),
+            strategy: trunc_strategy,
+            oracle: trunc_oracle,
+            max_shrink_iters: 4_000,
+        }),
+        Box::new(PropCheck::<ExpandCase, _> {
+            name: "pn_expand_a3",
+            cases: |t| t.pick(2_000_000, 60_000_000),
+            strategy: expand_strategy,
+            oracle: expand_oracle,
+            max_shrink_iters: 4_000,
+        }),
+        Box::new(PropCheck::<AckCase, _> {
+            name: "ack_ranges_to_frame",
+            cases: |t| t.pick(100_000, 3_000_000),
+            strategy: ack_strategy,
+            oracle: ack_oracle,
+            max_shrink_iters: 20_000,
+        }),
+    ]
 }
 
 pub fn property() -> Property {
     Property {
         id: "C08",
-        rule: "",
-        assumptions: &[],
+        rule: "component level. pn_truncate_expand: triples (pn, largest_acked | none, space) over all of [0, 2^62): anchors uniform / at 0 / \
+               at 2^62-1 / at powers of two, distances uniform and concentrated at 2^7, 2^15, 2^23, 2^31 (±2) and at half/twice those; \
+               s2n truncate must succeed exactly when some length <= 4 bytes satisfies 2^(8·len) >= 2·(pn − largest_acked) + 1, the chosen \
+               length must satisfy it (longer than minimal is allowed), the value must be the low bytes of pn, the wire encoding (tag bits, bytes) \
+               must round-trip, and RFC 9000 A.3 (own i128 transcription) as well as s2n expand must give pn back for every probed receiver state \
+               largest ∈ [largest_acked, pn) (both ends, middle, a generated one, and the states at every half-window distance from pn). \
+               pn_expand_a3: arbitrary (largest, length, truncated value) with values concentrated at expected ± half window (±3) and largest at \
+               0, 2^62-1 and window multiples: s2n expand == A.3 whenever A.3 stays inside [0, 2^62). ack_ranges_to_frame: generated receive \
+               histories (in order, gaps, reordering, duplicates, below the smallest range) into ack::Ranges with limit 1..40; after every insert the \
+               frame::Ack built as the ack manager builds it is encoded and parsed by an own RFC 9000 §19.3 parser: every acknowledged pn was \
+               received, ranges descend with gaps, the frame equals the range set, the largest received is acknowledged, nothing is lost unless the \
+               limit was hit. Non-trivial: distance (pn − largest_acked, or pn + 1 for none) within 2 of 2^7/2^15/2^23/2^31; expand: candidate \
+               within 2 of the half-window edge; ack: a frame with >= 3 ranges. Distinct = distinct generated cases.",
+        assumptions: &[
+            "RFC 9000 §17.1, A.2, A.3 and §19.3 as transcribed in c08_pn.rs (i128 arithmetic) are the trusted base",
+            "largest_acked = none: s2n has no such state; its sender (TxPacketNumbers::new) uses packet number 0 as basis, which is what the check passes. \
+             The requirement checked is A.2's literal num_unacked = pn + 1: 2^(8·len) >= 2·(pn + 1); §17.1's 'more than twice the difference' is undefined \
+             without an acknowledged packet (with a = −1 it would demand 2 bytes for pn 127, A.2's pseudocode computes 1)",
+            "pn < largest_acked is not a reachable sender state; only absence of a panic is checked there",
+            "where A.3 itself leaves [0, 2^62) (largest = 2^62−1) no packet number exists; s2n's clamp to 2^62−1 is accepted",
+            "which packet numbers the ack manager inserts into ack::Ranges (only successfully processed ones) is decided by the end-to-end monitor, not here",
+        ],
         subs: subs(),
         shards: 0,
     }
